@@ -17,7 +17,7 @@ from .. import core, real
 ID = "C11"
 LEVEL = "exploration"
 RULE = (
-    "cases are operation sequences over add(name in {n1,n2}, source in {s1.csv,s2.csv}, content in "
+    "cases are operation sequences over add(name in {n1,n2}, source in {s1.csv,s2.csv; drawn cases also multi-dot / mixed-case file names}, content in "
     "{c1,c2,c3}) / mutate(source, content) / remove(name) / new-instance, canonical under renaming of "
     "names, sources and contents: exhaustive to length 4 (quick) / 5 (thorough) plus Hypothesis-drawn "
     "sequences up to 25 steps; after every step the store is compared with the abstract model; "
@@ -90,9 +90,27 @@ def enumerate_cases(tier, seed):
                 yield {"ops": [list(o) for o in seq]}
 
 
+# source file names of other shapes (drawn cases only; the stored file keeps "the extension" of its source)
+SRC_SHAPES = [
+    None,
+    {"s1.csv": "orders.2031-03.csv"},
+    {"s2.csv": "export.v2.final.csv"},
+    {"s1.csv": "Q1.Report.csv", "s2.csv": "q1.report.csv"},
+    {"s1.csv": "s1.CSV"},
+    {"s2.csv": "a-b_c.csv"},
+]
+
+
 def strategy(tier):
     op = st.sampled_from(_ops())
-    return st.lists(op, min_size=6, max_size=25).map(lambda s: {"ops": [list(o) for o in s]})
+    return st.builds(
+        lambda s, m: {"ops": [list(o) for o in s], **({"srcmap": m} if m else {})},
+        st.lists(op, min_size=6, max_size=25), st.sampled_from(SRC_SHAPES))
+
+
+def exts(source):
+    """admissible extensions of a stored version of `source`: its last suffix or everything after the first dot"""
+    return {"." + source.rsplit(".", 1)[1], source[source.index("."):]}
 
 
 def sha(b):
@@ -150,8 +168,8 @@ def check_store(cps, model, sb, who):
         latest = model.versions[name][(source, h)]
         if b != latest:
             problems.append({"who": who, "name": name, "bytes_expected_tail": latest.decode()[-60:], "observed_tail": b.decode(errors="replace")[-60:], "expected_len": len(latest), "observed_len": len(b)})
-        if os.path.basename(got) != h + ".csv":
-            problems.append({"who": who, "name": name, "basename_expected": h + ".csv", "observed": os.path.basename(got)})
+        if os.path.basename(got) not in {h + e for e in exts(source)}:
+            problems.append({"who": who, "name": name, "basename_expected": sorted(h + e for e in exts(source)), "observed": os.path.basename(got)})
         fp = core.call_real(fm.get_fingerprint_for_name, name)
         if fp != h:
             problems.append({"who": who, "name": name, "fingerprint_expected": h, "observed": repr(fp)})
@@ -165,8 +183,9 @@ def check_store(cps, model, sb, who):
         if fps != [(a, b_) for a, b_ in ent]:
             problems.append({"who": who, "name": name, "manifest_expected": ent, "observed": fps})
         for (src, vh), vb in model.versions[name].items():
-            vp = os.path.join(sb.root, "inputs", "named_files", name, src, vh + ".csv")
-            if not os.path.isfile(vp):
+            vps = [os.path.join(sb.root, "inputs", "named_files", name, src, vh + e) for e in sorted(exts(src))]
+            vp = next((v for v in vps if os.path.isfile(v)), None)
+            if vp is None:
                 problems.append({"who": who, "name": name, "version_missing": [src, vh]})
             else:
                 with open(vp, "rb") as f:
@@ -177,7 +196,8 @@ def check_store(cps, model, sb, who):
 
 def run_case(case, sb):
     import contextlib, io, warnings
-    ops = case["ops"]
+    srcmap = case.get("srcmap") or {}
+    ops = [[(srcmap.get(x, x) if isinstance(x, str) else x) for x in op] for op in case["ops"]]
     model = Model()
     os.makedirs(os.path.join(sb.root, "src"), exist_ok=True)
     problems = []
@@ -240,6 +260,8 @@ def run_case(case, sb):
     if any(o[0] == "new" for o in ops):
         labels.append("new-instance")
     labels.append(f"len:{min(len(ops), 7)}")
+    if srcmap:
+        labels.append("source-name-shape:" + "+".join(sorted(srcmap.values())))
     ok = not problems
     summary = {"ops": ops}
     return core.outcome(ok=ok, nontrivial=readd_old or mutate_between, labels=labels,
